@@ -14,9 +14,19 @@ from concurrent.futures import ThreadPoolExecutor
 
 VERIF = os.path.dirname(os.path.dirname(os.path.abspath(__file__)))
 REPO = os.environ.get("VERIF_REPO", "/repo")
-COQ = os.path.join(VERIF, "coq")
-HARNESS = os.path.join(VERIF, "harness")
 WORK = os.path.join(VERIF, "work")
+HARNESS = os.path.join(VERIF, "harness")
+ALT = REPO != "/repo"          # VERIF_REPO=<scratch worktree>: check another tree without touching /repo
+ALT_TAG = hashlib.sha1(REPO.encode()).hexdigest()[:10] if ALT else ""
+if ALT:
+    # separate work area, Coq tree (generated files differ) and harness binaries per alternate repo
+    WORK = os.path.join(VERIF, "work", "alt-" + ALT_TAG)
+    COQ = os.path.join(WORK, "coq")
+    os.makedirs(WORK, exist_ok=True)
+    subprocess.run(["rsync", "-a", "--exclude", "Gen/*.v", "--exclude", "Gen/*.vo", "--exclude", "Gen/*.glob",
+                    os.path.join(VERIF, "coq") + "/", COQ + "/"], check=True)
+else:
+    COQ = os.path.join(VERIF, "coq")
 GOENV = dict(os.environ, GOFLAGS="-mod=mod", GOPROXY="off", GOSUMDB="off", GOTOOLCHAIN="local",
              CGO_ENABLED=os.environ.get("CGO_ENABLED", "1"))
 STD_AXIOMS = {  # standard-library axioms that may appear (each is named in the trusted base)
@@ -238,15 +248,24 @@ class Run:
 
     # ------------------------------------------------------------------ Go harness
     def gobuild(self, cmd):
-        os.makedirs(os.path.join(HARNESS, "bin"), exist_ok=True)
-        binp = os.path.join(HARNESS, "bin", cmd)
-        # go.sum must follow /repo's
-        try:
-            shutil.copyfile(os.path.join(REPO, "go.sum"), os.path.join(HARNESS, "go.sum"))
-        except Exception:
-            pass
+        bindir = os.path.join(HARNESS, "bin") if not ALT else os.path.join(WORK, "bin")
+        os.makedirs(bindir, exist_ok=True)
+        binp = os.path.join(bindir, cmd)
+        extra = []
+        if ALT:
+            # alternate module file whose replace directive points at the scratch worktree
+            mod = open(os.path.join(HARNESS, "go.mod")).read().replace("github.com/KiraCore/sekai => /repo", "github.com/KiraCore/sekai => " + REPO)
+            write_if_changed(os.path.join(WORK, "go.alt.mod"), mod)
+            shutil.copyfile(os.path.join(REPO, "go.sum"), os.path.join(WORK, "go.alt.sum"))
+            extra = ["-modfile", os.path.join(WORK, "go.alt.mod")]
+        else:
+            try:  # go.sum must follow /repo's
+                if open(os.path.join(REPO, "go.sum")).read() != open(os.path.join(HARNESS, "go.sum")).read():
+                    shutil.copyfile(os.path.join(REPO, "go.sum"), os.path.join(HARNESS, "go.sum"))
+            except Exception:
+                pass
         with Lock("gobuild-" + cmd):
-            rc, o, dt = sh(["go", "build", "-tags", "verif", "-o", binp, "./cmd/" + cmd], cwd=HARNESS, env=self.env, timeout=1200)
+            rc, o, dt = sh(["go", "build"] + extra + ["-tags", "verif", "-o", binp, "./cmd/" + cmd], cwd=HARNESS, env=self.env, timeout=1200)
         self.note("go build", cmd, "rc", rc, "%.1fs" % dt)
         if rc != 0:
             self.note(o[-3000:])
@@ -339,7 +358,8 @@ class Run:
                 new.append(v)
         wall = time.time() - self.t0
         rc = 0
-        os.makedirs(os.path.join(VERIF, "evidence"), exist_ok=True)
+        evdir = os.path.join(VERIF, "evidence") if not ALT else os.path.join(WORK, "evidence")
+        os.makedirs(evdir, exist_ok=True)
         replay = None
         for sig in sorted(listed):
             print("KNOWN-FINDING: property=%s %s -- %s" % (self.pid, sig, known_sigs[sig]["text"]))
@@ -378,7 +398,7 @@ class Run:
         ev = {"property_id": self.pid, "tier": self.tier, "seed": int(self.seed), "level": level,
               "coverage": cov, "assumptions": self.assume, "wall_s": round(wall, 2),
               "violations": len(new) + (1 if (self.broken and not new) else 0), "technique": technique}
-        json.dump(ev, open(os.path.join(VERIF, "evidence", self.pid + ".json"), "w"), indent=1, default=str)
+        json.dump(ev, open(os.path.join(evdir, self.pid + ".json"), "w"), indent=1, default=str)
         self.note("finish rc", rc, "wall %.1fs" % wall)
         if rc == 0:
             print("OK property=%s tier=%s obligations=%d/%d wall=%.0fs" % (self.pid, self.tier, n_ok, n_ob, wall))
